@@ -844,12 +844,14 @@ def report(ctx, ck):
 
 
 def main(ctx):
-    ok, errs = ctx.lake_build(['GojaModel.C08.Props', 'GojaModel.C08.CompileProps', 'model_c08'])
+    ok, errs = ctx.lake_build(['GojaModel.C08.Props', 'GojaModel.C08.CompileProps', 'GojaModel.C08.CompileSProps', 'model_c08'])
     ctx.audit('GojaModel.C08.Props', expect_min=8)
     ctx.audit('GojaModel.C08.CompileProps', expect_min=6)
+    ctx.audit('GojaModel.C08.CompileSProps', expect_min=3)
     if ctx.tier == 'thorough':
         ctx.leanchecker('GojaModel.C08.Props')
         ctx.leanchecker('GojaModel.C08.CompileProps')
+        ctx.leanchecker('GojaModel.C08.CompileSProps')
     h = ctx.go_build()
     model = ctx.model_exe() if os.path.exists(ctx.model_exe()) and ok else None
     if not ok and os.path.exists(ctx.model_exe()):
